@@ -92,6 +92,22 @@ def make_pool(rng):
     P["JLIST"] = np.array([2, 5, 3])
     P["GSPOS"] = np.array([[0.0, 0.0], [20.0, 10.0]])
     P["LAYR0"] = np.array([0.2, 0.4])
+    # scalar parameters handed over as arrays (0-d and 1-element): "every array argument" includes these
+    sepz = rng.random((5, 5)) * 3
+    sepz = np.abs(sepz - sepz.T)                         # a separation matrix: exact zeros on the diagonal
+    P["SEPZ"] = sepz
+    P["STACK3C"] = rng.standard_normal((3, n, n)) + 1j * rng.standard_normal((3, n, n))
+    P["VSTACK3"] = rng.standard_normal((3, n))
+    P["S_DELTA"] = np.array(0.1)
+    P["S_DF"] = np.array([1.25])
+    P["S_WVL"] = np.array(500e-9)
+    P["S_D1"] = np.array(0.01)
+    P["S_Z"] = np.array([100.0])
+    P["S_R0"] = np.array(0.15)
+    P["S_L0"] = np.array(20.0)
+    P["S_LAM"] = np.array([6e-7])
+    P["S_TH"] = np.array(0.2)
+    P["S_RAD"] = np.array(3.0)
     return P
 
 
@@ -272,6 +288,43 @@ def catalogue(ao):
     for k, band in enumerate(["r", "R", "i", "I", "K"]):
         add("astronomy.magnitude_to_flux[%s]" % band, AS.magnitude_to_flux, [], lambda f, a, b=band: f(4.0, b))
         add("astronomy.flux_to_magnitude[%s]" % band, AS.flux_to_magnitude, [], lambda f, a, b=band: f(2.5e5, b))
+    # separations containing exact zeros (diagonal of a separation matrix)
+    add("turb.phase_covariance[zeros]", TB.phase_covariance, ["SEPZ"], lambda f, a: f(a[0], 0.2, 20.0))
+    add("slopecovariance.structure_function_vk[zeros]", SC.structure_function_vk, ["SEPZ"], lambda f, a: f(a[0], 0.15, 25.0))
+    add("slopecovariance.structure_function_kolmogorov[zeros]", SC.structure_function_kolmogorov, ["SEPZ"], lambda f, a: f(a[0], 0.15))
+    add("karhunenLoeve.stf_vonKarman[zeros]", KL.stf_vonKarman, ["SEPZ"], lambda f, a: f(a[0], 10.0))
+    # leading batch axes of odd length (a roll by n//2 applied twice does not cancel for odd n)
+    for nm in ("ft2", "ift2"):
+        add("fouriertransform.%s[batch3]" % nm, getattr(FT, nm), ["STACK3C"], lambda f, a: f(a[0], 0.1),
+            batch=dict(n=3, single=lambda f, a, i: f(a[0][i], 0.1), item=lambda r, i: r[i]))
+    add("fouriertransform.rft2[batch3]", FT.rft2, ["STACK"], lambda f, a: f(a[0], 0.1),
+        batch=dict(n=3, single=lambda f, a, i: f(a[0][i], 0.1), item=lambda r, i: r[i]))
+    for nm, arr in (("ft", "STACK3C"), ("ift", "STACK3C"), ("rft", "VSTACK3")):
+        add("fouriertransform.%s[batch3]" % nm, getattr(FT, nm), [arr], lambda f, a: f(a[0][:, 0] if a[0].ndim == 3 else a[0], 0.1),
+            batch=dict(n=3, single=lambda f, a, i: f((a[0][:, 0] if a[0].ndim == 3 else a[0])[i], 0.1), item=lambda r, i: r[i]))
+    add("centroiders.cross_correlate[stack-frames]", CE.cross_correlate, ["STACK", "IMG2"], lambda f, a: [f(fr, a[1], padding=1) for fr in a[0]])
+    # scalar parameters passed as arrays
+    for nm in ("ft", "ift", "rft"):
+        add("fouriertransform.%s[array-spacing]" % nm, getattr(FT, nm), ["VECC" if nm != "rft" else "VECR", "S_DELTA"], lambda f, a: f(a[0], a[1]))
+    for nm in ("ft2", "ift2", "rft2"):
+        add("fouriertransform.%s[array-spacing]" % nm, getattr(FT, nm), ["FIELD" if nm != "rft2" else "IMG", "S_DF"], lambda f, a: f(a[0], a[1]))
+    add("opticalpropagation.angularSpectrum[array-scalars]", OP.angularSpectrum, ["FIELD", "S_WVL", "S_D1", "S_Z"], lambda f, a: f(a[0], a[1], a[2], 2 * a[2], a[3]))
+    add("opticalpropagation.oneStepFresnel[array-scalars]", OP.oneStepFresnel, ["FIELD", "S_WVL", "S_D1", "S_Z"], lambda f, a: f(a[0], a[1], a[2], a[3]))
+    add("opticalpropagation.twoStepFresnel[array-scalars]", OP.twoStepFresnel, ["FIELD", "S_WVL", "S_D1", "S_Z"], lambda f, a: f(a[0], a[1], a[2], 2 * a[2], a[3]))
+    add("opticalpropagation.lensAgainst[array-scalars]", OP.lensAgainst, ["FIELD", "S_WVL", "S_D1", "S_Z"], lambda f, a: f(a[0], a[1], a[2], a[3]))
+    add("phasescreen.ft_phase_screen[array-scalars]", PH.ft_phase_screen, ["S_R0", "S_DELTA", "S_L0"], lambda f, a: f(a[0], 8, a[1], a[2], 0.01, seed=5))
+    add("phasescreen.ft_sh_phase_screen[array-scalars]", PH.ft_sh_phase_screen, ["S_R0", "S_DELTA", "S_L0"], lambda f, a: f(a[0], 8, a[1], a[2], 0.01, seed=5))
+    add("atmos.cn2_to_seeing[array-lamda]", AC.cn2_to_seeing, ["CN2", "S_LAM"], lambda f, a: f(a[0] * 1e2, a[1]))
+    add("atmos.seeing_to_cn2[array-lamda]", AC.seeing_to_cn2, ["SEE", "S_LAM"], lambda f, a: f(a[0], a[1]))
+    add("atmos.isoplanaticAngle[array-lamda]", AC.isoplanaticAngle, ["CN2", "H", "S_LAM"], lambda f, a: f(a[0], a[1], a[2]))
+    add("atmos.slope_variance_from_r0[array-scalars]", AC.slope_variance_from_r0, ["R0S", "S_LAM", "S_D1"], lambda f, a: f(a[0], a[1], a[2]))
+    add("centroiders.centre_of_gravity[array-threshold]", CE.centre_of_gravity, ["IMG", "S_TH"], lambda f, a: f(a[0], threshold=a[1]))
+    add("centroiders.correlation_centroid[array-threshold]", CE.correlation_centroid, ["STACK", "IMG2", "S_TH"], lambda f, a: f(a[0], a[1], a[2], 1))
+    add("functions.circle[array-radius]", PU.circle, ["S_RAD"], lambda f, a: f(a[0], 8))
+    add("slopecovariance.structure_function_vk[array-scalars]", SC.structure_function_vk, ["RAD", "S_R0", "S_L0"], lambda f, a: f(a[0], a[1], a[2]))
+    add("turb.phase_covariance[array-scalars]", TB.phase_covariance, ["RAD", "S_R0", "S_L0"], lambda f, a: f(a[0], a[1], a[2]))
+    add("slopecovariance.create_tomographic_covariance_reconstructor[array-cond]", SC.create_tomographic_covariance_reconstructor, ["COV", "S_TH"],
+        lambda f, a: f(a[0], 2, a[1]))
     not_called = {
         "temporal_ps.plot_tps": "opens a matplotlib figure and calls pyplot.show()",
         "karhunenLoeve.gkl_basis/gkl_fcom/gkl_kernel/gkl_sfi/pcgeom/pol2car/set_pctr/setpincs": "pipeline stages exercised through make_kl",
